@@ -147,6 +147,7 @@ def stoStep (d : StoD) (cmd : String) (args : List String) : StoD × String :=
       match d.s.pull d.cfg t ds with
       | .ok (s', [], v) => ({ d with s := s' }, ptStr s'.P v)
       | .ok (_, _, _) => (d, "ERR DrawsLeft")
+      | .error .returnedNone => ({ d with s := d.s.pullNone d.cfg t ds }, "ERR ReturnedNone")
       | .error e => (d, s!"ERR {errName e}")
     | .error e => (d, s!"bad-op {e}")
   | "A.recv" =>
